@@ -526,3 +526,80 @@ func CheckQuery(R []*mocrelay.Event, fs []*mocrelay.ReqFilter, ans []*mocrelay.E
 	}
 	return QueryVerdict{true, "", "", ties}
 }
+
+// ---------------------------------------------------------------------------
+// deterministic sequential specification (used as the porcupine model). It is only
+// deterministic when no two events of a history share a created_at: then there is no
+// tie at replacement, eviction or a limit cut.
+
+// SpecAdd applies Add(e) to the retained set R of a store with the given capacity.
+func SpecAdd(capacity int, R []*mocrelay.Event, e *mocrelay.Event) (bool, []*mocrelay.Event) {
+	if ClassOf(e.Kind) == Ephemeral {
+		return true, R
+	}
+	if SuppressedBy(R, e) != nil {
+		return false, R
+	}
+	for _, x := range R {
+		if x.ID == e.ID {
+			return false, R
+		}
+	}
+	drop := map[string]bool{}
+	if a := Address(e); a != "" {
+		for _, x := range R {
+			if Address(x) == a {
+				if x.CreatedAt >= e.CreatedAt {
+					return false, R
+				}
+				drop[x.ID] = true
+			}
+		}
+	}
+	base := append(minus(R, drop), e)
+	if e.Kind == 5 {
+		del := map[string]bool{}
+		for _, x := range base {
+			if x.Pubkey == e.Pubkey && x.ID != e.ID && References(e, x) {
+				del[x.ID] = true
+			}
+		}
+		base = minus(base, del)
+	}
+	if len(base) > capacity {
+		v := base[0]
+		for _, x := range base {
+			if x.CreatedAt < v.CreatedAt {
+				v = x
+			}
+		}
+		base = minus(base, map[string]bool{v.ID: true})
+	}
+	return true, base
+}
+
+// SpecQuery computes the unique answer of a filter list over R (no ties assumed).
+func SpecQuery(R []*mocrelay.Event, fs []*mocrelay.ReqFilter) []*mocrelay.Event {
+	pick := map[string]*mocrelay.Event{}
+	for _, f := range fs {
+		var M []*mocrelay.Event
+		for _, x := range R {
+			if RefMatch(f, x) {
+				M = append(M, x)
+			}
+		}
+		sort.SliceStable(M, func(a, b int) bool { return M[a].CreatedAt > M[b].CreatedAt })
+		if f.Limit != nil && int64(len(M)) > *f.Limit {
+			M = M[:*f.Limit]
+		}
+		for _, x := range M {
+			pick[x.ID] = x
+		}
+	}
+	out := make([]*mocrelay.Event, 0, len(pick))
+	for _, x := range pick {
+		out = append(out, x)
+	}
+	sort.Slice(out, func(a, b int) bool { return out[a].CreatedAt > out[b].CreatedAt })
+	return out
+}
